@@ -16,7 +16,7 @@ CURVES = ['1.3.6.1.4.1.3029.1.5.1', '1.3.6.1.4.1.11591.15.1', '1.2.840.10045.3.1
 
 # source text the model was written against (sha256 prefix of inspect.getsource)
 PINS = {
-    'PubKeyV4.fingerprint': 'ed8e766f4557aaa7',
+    'PubKeyV4.fingerprint': 'b9a66ce211304a2a',
     'PrivKeyV4.pubkey': '33b42adeb5816d0e',
 }
 
@@ -28,8 +28,11 @@ def src_hash(f):
 
 
 def wallclock(dt):
-    """the integer the model calls k_created: the wall-clock fields of the datetime read as UTC (computed without calendar/timetuple)"""
-    return (dt.replace(tzinfo=None) - EPOCH) // timedelta(seconds=1)
+    """the integer the model calls k_created, computed without calendar/utctimetuple: the instant of an aware datetime
+    (repair ceba52c), the fields as they stand read as UTC for a naive one"""
+    if dt.tzinfo is not None:
+        return (dt - EPOCH.replace(tzinfo=timezone.utc)) // timedelta(seconds=1)
+    return (dt - EPOCH) // timedelta(seconds=1)
 
 
 # ---------------------------------------------------------------- fields of a PGPy key packet -> model tokens
@@ -68,8 +71,7 @@ def sec_tokens(km):
         return 'pub'
     s2k = bytes(km.s2k.__bytearray__())
     privs = [int(getattr(km, f)) for f in km.__privfields__]
-    return 'sec %s %s %s %s %d %s' % (hn(s2k[0]), hx(s2k[1:]), hx(bytes(km.encbytes)), hx(bytes(km.chksum)), len(privs),
-                                      ' '.join(hn(v) for v in privs))
+    return ' '.join(['sec', hn(s2k[0]), hx(s2k[1:]), hx(bytes(km.encbytes)), hx(bytes(km.chksum)), '%d' % len(privs)] + [hn(v) for v in privs])
 
 
 def key_tokens(pkt, created=None, public=False):
@@ -157,7 +159,13 @@ def check_packet(ctx, d, suite, pkt, case, created=None, nontrivial=True, kid=Tr
     case = dict(case, pkt=bytes(pkt.__bytearray__()).hex(), tokens=toks if len(toks) < 600 else toks[:600] + '...')
     ctx.case(suite, (toks,), nontrivial=nontrivial, sample={'tokens': toks[:200], 'impl_fp': impl})
     ctx.expect_eq(suite, 'fingerprint differs from the model of PubKeyV4.fingerprint', case, impl, m['fp'])
-    if int(pkt.pkalg) in (0, 21):
+    if int(pkt.pkalg) in (0, 21) and hasattr(pkt.keymaterial, 's2k'):
+        # PRIVATE key of an algorithm PGPy has no class for: outside the property (theorem C18_fp_opaque_private_refuted);
+        # only the correspondence with the model of the code is checked
+        # (the re-emitted packet keeps the parsed header length although an S2K usage octet is appended: take the body by position)
+        full, hdr = bytes(pkt.__bytearray__()), bytes(pkt.header.__bytearray__())
+        mt, mb = cached(d, 'body ' + toks).split(' ')
+        ctx.expect_eq(suite, 'emitted opaque private key packet differs from model', case, full[len(hdr) - 1:].hex(), mb)
         return m
     if m['fp'] != m['rfc'] or m['body'] != m['rfcbody']:
         ctx.fail(suite, 'model: code fingerprint/body differs from the RFC transcription on a well-formed key (theorem premises violated?)', case)
@@ -231,7 +239,8 @@ def reparse_packet(pgpy, pkt):
 
 
 def suite_times(ctx, d, pgpy, names):
-    """creation times 0 .. 2^32-1, tz-aware datetimes whose rendering differs from UTC, naive datetimes; export + import"""
+    """creation instants 0 .. 2^32-1 given as UTC-aware, offset-aware (rendering differs from UTC) and naive datetimes and as
+    integers; direct oracle: the four stored octets are int(dt.timestamp()); export + import"""
     from .keys import get
     extra = [ctx.rng.randrange(2 ** 32) for _ in range(ctx.n(4, 24))]
     for name in names:
@@ -240,30 +249,53 @@ def suite_times(ctx, d, pgpy, names):
         for pkt0 in packets_of_key(key):
             if big and ctx.quick:
                 pkt0 = pkt0.pubkey()
-            for w in (TIMES[:7] if big and ctx.quick else TIMES + extra[:6] if big else TIMES + extra):
-                for tz in (ZONES if (ctx.quick is False or (w in (0, 2 ** 31, 2 ** 32 - 1) and not big)) else
-                           [timezone.utc, ZONES[1], None] if w in TIMES[:7] else [timezone.utc, ZONES[2]]):
+            for t in (TIMES[:7] if big and ctx.quick else TIMES + extra[:6] if big else TIMES + extra):
+                for tz in (ZONES if (ctx.quick is False or (t in (0, 2 ** 31, 2 ** 32 - 1) and not big)) else
+                           [timezone.utc, ZONES[1], None] if t in TIMES[:7] else [timezone.utc, ZONES[2]]):
                     pkt = copy.copy(pkt0)
-                    dt = (EPOCH + timedelta(seconds=w)).replace(tzinfo=tz)      # wall clock w in zone tz
+                    # the instant t rendered in zone tz (its wall clock differs from UTC's); naive: the UTC fields without a zone
+                    dt = datetime.fromtimestamp(t, tz) if tz is not None else EPOCH + timedelta(seconds=t)
                     with warnings.catch_warnings():
                         warnings.simplefilter('ignore')
                         pkt.created = dt
-                    case = {'op': 'time', 'key': name, 'w': w, 'tz': str(tz)}
-                    m = check_packet(ctx, d, 'creation-time', pkt, case, created=w, kid=not big)
-                    # export + import: same fingerprint, creation time field carries w
+                    case = {'op': 'time', 'key': name, 'w': t, 'tz': str(tz)}
+                    m = check_packet(ctx, d, 'creation-time', pkt, case, created=t, kid=not big)
+                    # direct oracle: the four octets after the version octet are the instant
+                    o = outcome(lambda: split_packets(bytes(pkt.__bytearray__()))[0][1])
+                    stamp = int(dt.timestamp()) if tz is not None else t
+                    if o[0] != 'ok' or o[1][0] != 4 or int.from_bytes(o[1][1:5], 'big') != stamp:
+                        ctx.fail('creation-time', 'stored creation time is not int(dt.timestamp())', dict(case, stamp=stamp, impl=repr(o)[:80]))
+                    # export + import: same fingerprint, same instant
                     o = outcome(reparse_packet, pgpy, pkt)
                     if o[0] != 'ok':
                         ctx.fail('creation-time', 'emitted key packet is not read back', dict(case, impl=repr(o)))
                         continue
                     q = o[1]
-                    if outcome(lambda: str(q.fingerprint).lower())[1] != m['fp'] or wallclock(q.created) != w:
+                    if outcome(lambda: str(q.fingerprint).lower())[1] != m['fp'] or wallclock(q.created) != t or int(q.created.timestamp()) != t:
                         ctx.fail('creation-time', 'fingerprint / creation time changes over export + import',
                                  dict(case, pkt=bytes(pkt.__bytearray__()).hex(), after=str(q.fingerprint), created=str(q.created)))
                     # assigning the integer directly
                     pkt2 = copy.copy(pkt0)
-                    pkt2.created = w
+                    pkt2.created = t
                     if outcome(lambda: str(pkt2.fingerprint).lower())[1] != m['fp']:
                         ctx.fail('creation-time', 'created=<int> gives another fingerprint than the datetime', case)
+    # PGPKey.new with an offset-aware created=: the key packet stores the instant
+    from pgpy.constants import PubKeyAlgorithm as A, EllipticCurveOID as C
+    for t in [0, 1622529000, 2 ** 31 + 1, 2 ** 32 - 1]:
+        for tz in ZONES[1:5]:
+            dt = datetime.fromtimestamp(t, tz)
+            with warnings.catch_warnings():
+                warnings.simplefilter('ignore')
+                o = outcome(lambda: pgpy.PGPKey.new(A.EdDSA, C.Ed25519, created=dt))
+            case = {'op': 'time-new', 'w': t, 'tz': str(tz)}
+            ctx.case('creation-time', ('new', t, str(tz)))
+            if o[0] != 'ok':
+                ctx.fail('creation-time', 'PGPKey.new refuses an offset-aware creation time', dict(case, impl=repr(o))); continue
+            body = split_packets(bytes(o[1]._key.__bytearray__()))[0][1]
+            re = pgpy.PGPKey.from_blob(bytes(o[1]))[0]
+            if int.from_bytes(body[1:5], 'big') != int(dt.timestamp()) or re.created != dt or str(re.fingerprint) != str(o[1].fingerprint):
+                ctx.fail('creation-time', 'offset-aware creation time is not stored as the instant', dict(case, pkt=bytes(o[1]._key.__bytearray__()).hex()))
+            check_packet(ctx, d, 'creation-time', o[1]._key, case, created=t)
 
 
 TZ_CHILD = r'''
@@ -608,27 +640,30 @@ def suite_fresh(ctx, d, pgpy, specs):
 
 
 def suite_opaque(ctx, d, pgpy):
-    """algorithm ids PGPy has no material class for: the model predicts the (non-RFC) value the code computes"""
+    """algorithm ids PGPy has no material class for (0, 21).  PUBLIC keys: full property (RFC fingerprint of the whole body, repair
+    e03112d).  PRIVATE keys stay outside the property (whole stored material hashed, empty twin): the model predicts what the code does."""
     from pgpy.packet import Packet
     for alg in (21, 0):
-        for data in (b'\x00\x09\x01\xff', bytes(range(40))):
-            body = b'\x04' + (1000).to_bytes(4, 'big') + bytes([alg]) + data
-            raw = unhx(d.call('pkt', '6', hx(body)))
-            o = outcome(lambda: Packet(bytearray(raw)))
-            ctx.case('opaque', (alg, data.hex()), nontrivial=False)
-            if o[0] != 'ok':
-                ctx.notes.append('opaque algorithm %d no longer parsed: %r' % (alg, o)); continue
-            p = o[1]
-            case = {'op': 'opaque', 'pkt': raw.hex()}
-            toks = '0 3e8 %s opaque %s pub' % (hn(alg), hx(data))
-            m = model_fp(d, toks)
-            ctx.expect_eq('opaque', 'fingerprint of an opaque-algorithm key differs from the model', case, str(p.fingerprint).lower(), m['fp'])
-            if str(p.fingerprint).lower() != rfc_fp(body):
-                if 'C18/opaque-algorithm-publen-zero' in ctx.findings:
-                    ctx.fail('opaque', 'unsupported-algorithm key: fingerprint hashes six octets only', case, defect_key='C18/opaque-algorithm-publen-zero')
-                elif not any('opaque' in n for n in ctx.notes):
-                    ctx.notes.append('observation (outside the supported algorithms, theorem C18_fp_opaque_refuted): keys with algorithm id 0 / 21 '
-                                     '(OpaquePubKey, publen() = 0) get SHA-1 over 99 00 06 + six octets, not the RFC 4880 12.2 value; witness packet ' + raw.hex())
+        for data in (b'\x00\x09\x01\xff', bytes(range(40)), b''):
+            for tag in (6, 14, 5, 7):
+                body = b'\x04' + (1000).to_bytes(4, 'big') + bytes([alg]) + data
+                raw = unhx(d.call('pkt', hn(tag), hx(body)))
+                o = outcome(lambda: Packet(bytearray(raw)))
+                if o[0] != 'ok':
+                    ctx.case('opaque', (alg, tag, data.hex()), nontrivial=False)
+                    ctx.notes.append('opaque algorithm %d tag %d no longer parsed: %r' % (alg, tag, o)); continue
+                p = o[1]
+                case = {'op': 'opaque', 'pkt': raw.hex()}
+                m = check_packet(ctx, d, 'opaque', p, case, nontrivial=tag in (6, 14), kid=True)
+                if tag in (6, 14):
+                    if str(p.fingerprint).lower() != rfc_fp(body) or bytes(p.__bytearray__()) != raw:
+                        ctx.fail('opaque', 'public key of an unknown algorithm: fingerprint is not the RFC value of its body / body not re-emitted', case)
+                else:
+                    tw = outcome(lambda: str(p.pubkey().fingerprint).lower())
+                    mt = model_fp(d, '%d 3e8 %s opaque - pub' % (1 if tag == 7 else 0, hn(alg)))
+                    ctx.expect_eq('opaque', 'twin of an opaque private key differs from the model (empty material)', case, tw, ('ok', mt['fp']))
+    ctx.notes.append('outside the property (theorems C18_fp_opaque_private_characterised / _refuted): a PRIVATE key with algorithm id 0 / 21 hashes its '
+                     'whole stored material, its pubkey() twin has empty material and another fingerprint, re-emission appends an S2K usage octet under a stale header length')
 
 
 def suite_gpg(ctx, d, pgpy, names):
@@ -714,7 +749,7 @@ def replay(ctx, case):
         p = Packet(bytearray.fromhex(case['pkt']))
         if case.get('w') is not None and case.get('op') in ('time', 'tzenv'):
             p.created = case['w']
-        if int(p.pkalg) in (0, 21):
+        if int(p.pkalg) in (0, 21) and hasattr(p.keymaterial, 's2k'):
             return False
         tag, body = exported_pub_body(p)
         return rfc_fp(body) != str(p.fingerprint).lower()
